@@ -105,9 +105,13 @@ pub enum Prog {
     AbandonJoinDropOwnerCall,
     /// a join future is created and simply kept (never polled) while the owner is detached
     PendingJoinDetachCall,
+    /// a join is in flight (polled once, pending) when the owner is detached; then call
+    InFlightJoinDetachCall,
+    /// a join is in flight when a second join is started and polled; stop; both resolve
+    InFlightJoinSecondJoin,
 }
 
-pub const PROGS: [Prog; 10] = [
+pub const PROGS: [Prog; 12] = [
     Prog::Call,
     Prog::DropOthersCall,
     Prog::DetachCall,
@@ -118,6 +122,8 @@ pub const PROGS: [Prog; 10] = [
     Prog::AbandonJoinDetachCall,
     Prog::AbandonJoinDropOwnerCall,
     Prog::PendingJoinDetachCall,
+    Prog::InFlightJoinDetachCall,
+    Prog::InFlightJoinSecondJoin,
 ];
 
 enum Spawned {
@@ -252,6 +258,29 @@ impl Scene for S {
                     vec![Op::Call(t, 1), Op::Yield, Op::Call(t, 2)]
                 }
             }
+            Prog::InFlightJoinDetachCall => {
+                if owning {
+                    vec![Op::Call(t, 1), Op::JoinStart(H::Own(0)), Op::JoinPollOnce(0), Op::Detach(H::Own(0)), Op::Yield, Op::Call(H::Addr(0), 2)]
+                } else {
+                    vec![Op::Call(t, 1), Op::Yield, Op::Call(t, 2)]
+                }
+            }
+            Prog::InFlightJoinSecondJoin => {
+                if owning {
+                    vec![
+                        Op::Call(t, 1),
+                        Op::JoinStart(H::Own(0)),
+                        Op::JoinPollOnce(0),
+                        Op::JoinStart(H::Own(0)),
+                        Op::JoinPollOnce(1),
+                        Op::ToAddr(H::Own(0)),
+                        Op::Stop(H::Addr(0)),
+                        Op::JoinAwait(0),
+                    ]
+                } else {
+                    vec![Op::Call(t, 1), Op::Yield, Op::Call(t, 2)]
+                }
+            }
             Prog::PanicAwaitJoin => {
                 if owning {
                     vec![Op::Call(t, 1), Op::ToAddr(H::Own(0)), Op::Send(H::Own(0), 66), Op::Await(H::Addr(0)), Op::Join(H::Own(0))]
@@ -289,7 +318,8 @@ impl Scene for S {
                 Prog::StopAwaitJoin => o.i == 0,
                 Prog::Ticks => o.i == 1,
                 Prog::CallDropAll | Prog::PanicAwaitJoin => o.i == 0,
-                Prog::AbandonJoinDetachCall | Prog::AbandonJoinDropOwnerCall | Prog::PendingJoinDetachCall => true,
+                Prog::AbandonJoinDetachCall | Prog::AbandonJoinDropOwnerCall | Prog::PendingJoinDetachCall | Prog::InFlightJoinDetachCall => true,
+                Prog::InFlightJoinSecondJoin => o.i == 0,
             };
             if o.c == 0 && call_op && is_call {
                 crate::check::oblige("actor-runs-after-spawn-returned");
@@ -359,7 +389,12 @@ fn cases(tier: Tier) -> Vec<Case> {
             let _ = tier;
             v.push(Case {
                 desc: format!("runtime-equivalence entry={entry:?} program={prog:?}"),
-                exec: ExecCfg { horizon: if prog == Prog::Ticks { 4 } else { 25 }, ..ExecCfg::default() },
+                exec: ExecCfg {
+                    horizon: if prog == Prog::Ticks { 4 } else { 25 },
+                    // programs that poll a join future exactly once see whether the handle's lock suspends
+                    lock_yield_is_choice: matches!(prog, Prog::InFlightJoinDetachCall | Prog::InFlightJoinSecondJoin),
+                    ..ExecCfg::default()
+                },
                 bound: None,
                 scene: Box::new(S { entry, prog, outcomes: RefCell::new(BTreeMap::new()) }),
             });
